@@ -77,11 +77,12 @@ impl<T: Types> RaftLogWriter<T> for RaftLog<T> {
 
     fn append<I>(&mut self, entries: I) -> Result<Segment, io::Error>
     where I: IntoIterator<Item = (T::LogId, T::LogPayload)> {
+        let mut seg = self.wal.last_segment();
         for (log_id, payload) in entries {
             let record = WALRecord::Append(log_id, payload);
-            self.append_and_apply(&record)?;
+            seg = self.append_and_apply(&record)?;
         }
-        Ok(self.wal.last_segment())
+        Ok(seg)
     }
 
     /// Truncate at `index`, keep the record before `index`.
@@ -507,10 +508,14 @@ impl<T: Types> RaftLog<T> {
             self.wal.last_segment(),
         )?;
 
+        // Take the segment of `rec` before a full chunk is closed: closing
+        // opens a new chunk whose last segment is its head `State` record.
+        let seg = self.wal.last_segment();
+
         self.wal
             .try_close_full_chunk(|| self.state_machine.log_state.clone())?;
 
-        Ok(self.wal.last_segment())
+        Ok(seg)
     }
 
     /// Returns the current size of the log on disk in bytes.
